@@ -1566,6 +1566,9 @@ def rotor_between_lines(L1, L2):
     K = L21 + L12 + 2.0
     beta = K(4)
     alpha = 2 * K.value[0]
+    if abs(alpha) < 1E-6:
+        # antiparallel lines: 1 + L2*L1 is null and the closed form below divides by zero
+        return rotor_between_objects_root(L1, L2)
 
     denominator = np.sqrt(alpha / 2)
     numerator = 1.0 - beta/alpha
